@@ -19,13 +19,15 @@ def midiToSpelling (p : Int) : Option (String × Int × Int) :=
   | some (_, step, alter) => some (upper step, alter, octave)
   | none => none
 
+/-- accidental part of a note name: `x` for 2, `#`·n for other positive, `b`·n for negative alterations -/
+def accString (alter : Int) : String :=
+  if alter > 0 then (if alter = 2 then "x" else String.ofList (List.replicate alter.toNat '#'))
+  else if alter < 0 then String.ofList (List.replicate (-alter).toNat 'b')
+  else ""
+
 /-- `pitch_spelling_to_note_name(step, alter, octave)` -/
 def spellingToNoteName (step : String) (alter : Int) (octave : Int) : String :=
-  let f :=
-    if alter > 0 then (if alter = 2 then "x" else String.ofList (List.replicate alter.toNat '#'))
-    else if alter < 0 then String.ofList (List.replicate (-alter).toNat 'b')
-    else ""
-  upper step ++ f ++ showInt octave
+  upper step ++ accString alter ++ showInt octave
 
 def isStepChar (c : Char) : Bool := 'A' ≤ c && c ≤ 'G'
 def isAccChar (c : Char) : Bool := c = 'x' || c = 'b' || c = '#'
